@@ -31,7 +31,14 @@ fn pad_exact(fields: &mut Vec<Field>, target: u64) -> bool {
     if k > 200_000 {
         return false;
     }
-    fields.push((b"p".to_vec(), vec![b'v'; k]));
+    // the padding byte is drawn: bytes whose Huffman code is shorter than, as long as, or much longer
+    // than 8 bits (obs-text, backslash), so that the encoded length and the decoded size differ in
+    // both directions - the limit is about the decoded size (RFC 9114 4.2.2), whatever the encoding
+    let b = *pick(&[b'v', 0xe9u8, b'\\', b'0', 0xffu8]);
+    if b != b'v' {
+        obs::count("probe.padding_expands_under_huffman");
+    }
+    fields.push((b"p".to_vec(), vec![b; k]));
     true
 }
 
